@@ -141,3 +141,71 @@ pub fn small_pages() {
     // SAFETY: single-threaded harness
     unsafe { PAGE_SIZE = 64 }
 }
+
+// ---- read(2) / write(2): scripted descriptor I/O -------------------------------------------------------------
+pub const SCRIPT: usize = 6;
+/// per-call behaviour: value returned (>= 0: bytes transferred, capped at the request; -1: error with IO_ERRNO[i])
+pub static mut IO_RET: [isize; SCRIPT] = [0; SCRIPT];
+pub static mut IO_ERRNO: [c_int; SCRIPT] = [0; SCRIPT];
+pub static mut IO_CALLS: usize = 0;
+/// log of calls: (fd, pointer, count)
+pub static mut IO_LOG: [(c_int, usize, usize); SCRIPT] = [(0, 0, 0); SCRIPT];
+/// running stamp: byte k delivered by read() has value STAMP0 + k (so loss / duplication / reordering is visible)
+pub static mut IO_DELIVERED: usize = 0;
+pub const STAMP0: u8 = 0xA0;
+/// bytes handed to write(), in order
+pub static mut IO_SINK: [u8; 16] = [0; 16];
+pub static mut IO_ACCEPTED: usize = 0;
+
+pub fn link_io() {
+    let _ = read as usize;
+    let _ = write as usize;
+    let _ = __errno_location as usize;
+}
+
+unsafe fn io_step(fd: c_int, p: usize, count: usize) -> isize {
+    assert!(IO_CALLS < SCRIPT, "I/O script exhausted");
+    let i = IO_CALLS;
+    IO_LOG[i] = (fd, p, count);
+    IO_CALLS += 1;
+    let r = IO_RET[i];
+    if r < 0 {
+        ERRNO = IO_ERRNO[i];
+        return -1;
+    }
+    if r as usize > count {
+        count as isize
+    } else {
+        r
+    }
+}
+
+#[no_mangle]
+pub unsafe extern "C" fn read(fd: c_int, buf: *mut c_void, count: usize) -> isize {
+    let n = io_step(fd, buf as usize, count);
+    if n > 0 {
+        let mut k = 0;
+        while k < n as usize {
+            *(buf as *mut u8).add(k) = STAMP0.wrapping_add((IO_DELIVERED + k) as u8);
+            k += 1;
+        }
+        IO_DELIVERED += n as usize;
+    }
+    n
+}
+
+#[no_mangle]
+pub unsafe extern "C" fn write(fd: c_int, buf: *const c_void, count: usize) -> isize {
+    let n = io_step(fd, buf as usize, count);
+    if n > 0 {
+        let mut k = 0;
+        while k < n as usize {
+            if IO_ACCEPTED + k < 16 {
+                IO_SINK[IO_ACCEPTED + k] = *(buf as *const u8).add(k);
+            }
+            k += 1;
+        }
+        IO_ACCEPTED += n as usize;
+    }
+    n
+}
